@@ -1,30 +1,22 @@
 import DspVerif.Driver.Proto
 import DspVerif.Model.Fir
+import DspVerif.Model.Fft
 /-! driver handlers for C07: `FirFilter`, `FftFilter`, `xcorr`, `MAFilter` models at `Float`.
 
-The models of `FftFilter` and `xcorr` take the transform as a parameter; the driver instantiates it with the
-plain radix-2 decimation-in-time FFT below (all lengths used by these two kernels are powers of two).  It is a
-*different* algorithm from the library's plan tree, so the FFT based tags are compared with a tolerance. -/
+The models of `FftFilter` and `xcorr` take the transform pair as parameters; the driver instantiates them with the C01
+model of the library's plans at `Float` -- `fft(x)` = `FftPlan(x.size())(x)` = `Fft.fftC lits x.size x` and `ifft(X)` =
+`IfftPlan(X.size())(X)` = `Fft.ifftWith (Fft.fftC lits X.size) X.size X` -- i.e. exactly the instantiation
+(`libFft` / `libIfft`) the theorems of `Props/C07Total.lean` are about, with the literals regenerated from the source. -/
 namespace Dsp.Driver
 open Dsp.Proto Dsp.Fir
 
-/-- radix-2 DIT FFT of length `2^lg`; `sgn = -1` forward, `+1` inverse (unnormalised) -/
-def fftPow2 (sgn : Float) : Nat → Array (Cx Float) → Array (Cx Float)
-  | 0, a => a
-  | lg + 1, a =>
-    let half := 2 ^ lg
-    let e := fftPow2 sgn lg (Array.ofFn (n := half) fun i => a.getD (2 * i.val) ⟨0, 0⟩)
-    let o := fftPow2 sgn lg (Array.ofFn (n := half) fun i => a.getD (2 * i.val + 1) ⟨0, 0⟩)
-    Array.ofFn (n := 2 * half) fun k =>
-      let j := k.val % half
-      let th := 2.0 * 3.141592653589793238463 * j.toFloat / (2 * half).toFloat
-      let w : Cx Float := ⟨Float.cos th, sgn * Float.sin th⟩
-      let t := w * o.getD j ⟨0, 0⟩
-      if k.val < half then e.getD j ⟨0, 0⟩ + t else e.getD j ⟨0, 0⟩ - t
+/-- the literals of the small kernels as written in the source (regenerated) -/
+def lits : Fft.Lits Float := ⟨Gen.fft8_c0, Gen.rfft8_c0, Gen.dft3_c0⟩
 
-def fftF (a : Array (Cx Float)) : Array (Cx Float) := fftPow2 (-1.0) (Nat.log2 a.size) a
-def ifftF (a : Array (Cx Float)) : Array (Cx Float) :=
-  (fftPow2 1.0 (Nat.log2 a.size) a).map fun z => Cx.divr z a.size.toFloat
+/-- `fft(const arr_cmplx&)` = `FftPlan(n).solve` (`C07.libFft` at `Float`) -/
+def fftF (x : Array (Cx Float)) : Array (Cx Float) := Fft.fftC lits x.size x
+/-- `ifft(const arr_cmplx&)` = `IfftPlan(n).solve` (`C07.libIfft` at `Float`) -/
+def ifftF (X : Array (Cx Float)) : Array (Cx Float) := Fft.ifftWith (Fft.fftC lits X.size) X.size X
 
 /-- every `stride`-th element (index 0, stride, 2·stride, …) -/
 def decim {γ : Type} [Inhabited γ] (a : Array γ) (stride : Nat) : Array γ :=
@@ -43,14 +35,6 @@ def takeFramesC : Nat → List String → Option (List (Array (Cx Float)) × Lis
     let (x, r) ← takeCxs r
     let (xs, r) ← takeFramesC n r
     pure (x :: xs, r)
-
-/-- `‖h‖₂·‖x‖₂` over all frames: the scale token of the FFT based tags -/
-def scaleR (h : Array Float) (frames : List (Array Float)) : Float :=
-  let ss (a : Array Float) := a.foldl (fun s v => s + v * v) 0.0
-  Float.sqrt (ss h) * Float.sqrt (frames.foldl (fun s f => s + ss f) 0.0)
-def scaleC (h : Array (Cx Float)) (frames : List (Array (Cx Float))) : Float :=
-  let ss (a : Array (Cx Float)) := a.foldl (fun s v => s + (v.re * v.re + v.im * v.im)) 0.0
-  Float.sqrt (ss h) * Float.sqrt (frames.foldl (fun s f => s + ss f) 0.0)
 
 /-- thread a processor state through the frames of one case, formatting every frame's output -/
 def runFrames {σ γ : Type} (step : σ → γ → σ × String) (s : σ) (frames : List γ) : String :=
@@ -76,7 +60,7 @@ def h07 : List String → Option String
     let nf ← (← rest.head?).toNat?
     let (frames, _) ← takeFramesF nf rest.tail
     let s0 := fftInitR fftF h
-    some (toString s0.n ++ " " ++ fmtF (scaleR h frames) ++ " " ++
+    some (toString s0.n ++ " " ++
       runFrames (fun s x => let r := fftProcessR fftF ifftF s x; (r.1, fmtFloatArr (decim r.2 stride))) s0 frames)
   | "fftC" :: stride :: rest => do
     let stride ← stride.toNat?
@@ -84,7 +68,7 @@ def h07 : List String → Option String
     let nf ← (← rest.head?).toNat?
     let (frames, _) ← takeFramesC nf rest.tail
     let s0 := fftInitC fftF h
-    some (toString s0.n ++ " " ++ fmtF (scaleC h frames) ++ " " ++
+    some (toString s0.n ++ " " ++
       runFrames (fun s x => let r := fftProcessC fftF ifftF s x; (r.1, fmtCxArr (decim r.2 stride))) s0 frames)
   | "xcR" :: rest => do
     let (a, rest) ← takeFloats rest
